@@ -160,7 +160,11 @@ class Supp:
             if uf is not None or bn in self.elem:
                 n = uf.nin if uf is not None else len(args)
                 return self.union([self.of(a) for a in args[:n]])
-            if bn == "cross" and len(args) >= 2:
+            if bn in ("expand_dims", "swapaxes", "squeeze", "transpose", "moveaxis", "rollaxis", "flip", "roll", "negative", "copy") and args:
+                # re-indexing keeps the set of shape sources (not the layout; that is not tracked here)
+                return self.of(args[0])
+            if bn in ("cross", "matmul") and len(args) >= 2:
+                # leading (batch) dimensions of both operands broadcast into the result
                 return self.union([self.of(args[0]), self.of(args[1])])
             if bn in ("sum", "mean", "prod", "max", "min", "amax", "amin", "any", "all", "nansum"):
                 if len(args) == 1 and not ({"axis", "keepdims"} & set(t.kw)):
@@ -228,10 +232,10 @@ def vjp(ctx, world):
             ansset = set(ba)
         n += 1
         S = Supp(world, ansset, ansset)
-        from ..ruleir import leaves
+        from ..ruleir import deep_leaves
 
         verdicts = []
-        for conds, leaf in leaves(world.ev, ir.result):
+        for conds, leaf in deep_leaves(world.ev, ir.result):
             verdicts.append((S.of(leaf), leaf))
         bad = [(s, l) for s, l in verdicts if s is not TOP and s != frozenset([k])]
         und = [(s, l) for s, l in verdicts if s is TOP]
